@@ -163,6 +163,14 @@ def cases(tier: str, rng: random.Random) -> List[Case]:
                     a, b = std_case(base, x, m, tag="b:base"), std_case(ref, x, m, tag="b:refined")
                     b.extra = {"base_term": base}
                     out += [a, b]
+    # unions of seven and eight variants (ends of the typed constructor's argument list)
+    for v_, x_ in G.wide_union_cases():
+        for m_ in ("sync", "async"):
+            out.append(std_case(v_, x_, m_, tag="a:wide-union"))
+    # optionals whose none_validator is the user's own
+    for v_, x_ in G.custom_none_cases():
+        for m_ in ("sync", "async"):
+            out.append(std_case(v_, x_, m_, tag="a:custom-none"))
     return out
 
 
